@@ -536,6 +536,17 @@ func init() {
 					us = append(us, c10Snapshots(d, depth, s, n))
 				}
 				us = append(us, c10ReplySnapshot(d))
+				// store level: a keep-alive reporting a peer while that peer checks in / re-registers
+				rb := 2
+				if d == vh.Badger {
+					rb = 1
+				}
+				if tier == "thorough" {
+					rb += 2
+				}
+				for _, scen := range []string{"report-vs-peer-checkin", "report-vs-peer-reconnect", "mutual-reports"} {
+					us = append(us, c11Race(d, scen, rb))
+				}
 			}
 			reps := 150
 			if tier == "thorough" {
